@@ -30,6 +30,20 @@ class N(HasTraits):
     tkids = List(Instance("N"), tracked=True)  # matched by the metadata filter "+tracked"
     tchild = Instance("N", tracked2=True)      # matched by "+tracked2"
 
+    eqkey = Str("")                # nodes with the same non-empty key compare EQUAL (value-based __eq__, identity-based hash)
+
+    def __eq__(self, other):
+        if not isinstance(other, N):
+            return NotImplemented
+        k = self.__dict__.get("eqkey", "")
+        return self is other or (k != "" and k == other.__dict__.get("eqkey", ""))
+
+    def __ne__(self, other):
+        r = self.__eq__(other)
+        return r if r is NotImplemented else not r
+
+    __hash__ = object.__hash__
+
     def __repr__(self):
         return "<%s>" % self.name
 
